@@ -520,6 +520,21 @@ def rule_status_lattice(ctx):
                 other = peel(ge[2][1])
                 if other[0] == "agg" and other[1].endswith("Status::Rescore"):
                     guarded = True
+    if not guarded and resets:
+        # `if a || status == Rescore { reset }`: decided on the edges -- every `== Rescore` test of run sends its true edge
+        # through a reset_matches on all paths
+        tests = []
+        for bi in sorted(run.live):
+            t_ = run.blocks[bi]["term"]
+            if t_["k"] != "switch":
+                continue
+            ge = run.expr_of_operand(t_["discr"])
+            if ge[0] == "call" and str(ge[3]).endswith("PartialEq::eq"):
+                other = peel(ge[2][1])
+                if other[0] == "agg" and other[1].endswith("Status::Rescore"):
+                    tests.append((bi, t_["otherwise"]))
+        if tests and all(tt_ in resets or run.all_paths_to_return_pass(tt_, via_nodes=resets) for _, tt_ in tests):
+            guarded = True
     if guarded:
         ctx.ok(site(run, resets[0]), "a Rescore status resets the match list before rescoring")
     else:
